@@ -37,8 +37,8 @@ func serverTraceMeta() Meta {
 	return Meta{
 		DefaultLife: 600, PermTO: 300, ChanTO: 600, MaxLife: 3600, InboundMTU: 1600,
 		Fam:       map[string]int{"A": 4, "B": 4, "X": 6},
-		ListenFam: map[string]int{"c1": 4, "c2": 4, "c3": 4, "c6": 6},
-		Clients:   []string{"c1", "c2", "c3", "c6"}, Users: []string{"u1", "u2"}, PeerPorts: []int{1, 2},
+		ListenFam: map[string]int{"c1": 4, "c2": 4, "c3": 4, "c6": 6, "s1": 4, "s2": 4},
+		Clients:   []string{"c1", "c2", "c3", "c6", "s1", "s2"}, Users: []string{"u1", "u2"}, PeerPorts: []int{1, 2},
 	}
 }
 
@@ -107,6 +107,11 @@ func runServerBatchExecution(t *testing.T, seed int64, log *traceLog) {
 					r = 0
 				} else if !st.Live {
 					r = 8 + rng.Intn(92)
+				}
+				if w.isStream(c) && st.Live && rng.Intn(12) == 0 {
+					newOp(map[string]any{"a": "ConnClose", "c": c}) // the control connection ends
+
+					continue
 				}
 				switch {
 				case r < 8: // Allocate (a second one, or the retransmission of the last one)
@@ -200,6 +205,14 @@ func runServerBatchExecution(t *testing.T, seed int64, log *traceLog) {
 					cd := proto.ChannelData{Number: proto.ChannelNumber(toInt(a["n"])), Data: pay} //nolint:gosec
 					cd.Encode()
 					raw = cd.Raw
+				case "ConnClose":
+					sends = append(sends, func() {
+						if st := w.streams[c]; st != nil {
+							_ = st.Close()
+						}
+					})
+
+					continue
 				case "PeerData":
 					p := a["p"].([]any)
 					pc := w.peers[fmt.Sprintf("%s/%d", p[0], toInt(p[1]))]
@@ -215,6 +228,13 @@ func runServerBatchExecution(t *testing.T, seed int64, log *traceLog) {
 				s()
 			}
 			synctest.Wait()
+			for _, op := range ops {
+				if op.a["a"] == "ConnClose" { // a new control connection from the same address for later rounds
+					if err := w.dialStream(op.a["c"].(string)); err != nil {
+						t.Fatal(err)
+					}
+				}
+			}
 			// ---- what every operation got back -------------------------------------------------
 			cn := append([]string{}, clients...)
 			sort.Strings(cn)
